@@ -123,8 +123,10 @@ func (o *OverlayWorld) HasFeatureWithID(id b6.FeatureID) bool {
 }
 
 func (o *OverlayWorld) FindLocationByID(id b6.FeatureID) (s2.LatLng, error) {
-	if ll, err := o.overlay.FindLocationByID(id); err == nil {
-		return ll, nil
+	if o.overlay.HasFeatureWithID(id) {
+		// The overlay's version of the feature replaces the base's, even
+		// if it has no location.
+		return o.overlay.FindLocationByID(id)
 	}
 	return o.base.FindLocationByID(id)
 }
